@@ -407,3 +407,198 @@ def unroll_literal_dispatch_inplace(fn) -> int:
     if done:
         ast.fix_missing_locations(fn)
     return done
+
+
+def _stale_reads(st, names):
+    """names among `names` that `st` reads in a place where they are not freshly bound by an enclosing for-loop / comprehension of st itself"""
+    out = set()
+
+    def walk(n, fresh):
+        if isinstance(n, ast.For):
+            walk(n.iter, fresh)
+            f2 = fresh | {x.id for x in ast.walk(n.target) if isinstance(x, ast.Name)}
+            for b in n.body:
+                walk(b, f2)
+            for b in n.orelse:
+                walk(b, fresh)
+            return
+        if isinstance(n, (ast.ListComp, ast.SetComp, ast.DictComp, ast.GeneratorExp)):
+            f2 = set(fresh)
+            for g in n.generators:
+                walk(g.iter, f2)
+                f2 |= {x.id for x in ast.walk(g.target) if isinstance(x, ast.Name)}
+                for c in g.ifs:
+                    walk(c, f2)
+            for part in ([n.key, n.value] if isinstance(n, ast.DictComp) else [n.elt]):
+                walk(part, f2)
+            return
+        if isinstance(n, ast.Name) and isinstance(n.ctx, ast.Load) and n.id in names and n.id not in fresh:
+            out.add(n.id)
+        for c in ast.iter_child_nodes(n):
+            walk(c, fresh)
+
+    walk(st, set())
+    return out
+
+
+def loops_to_comprehensions_inplace(root) -> int:
+    """Canonical form of simple accumulation loops.  Directly after `X = []` / `X = {}` / `X = set()`, a loop
+
+        for T in IT:                      (possibly nested for-loops and ifs without else, nothing else in the bodies)
+            if C:
+                X.append(E)   |   X[K] = V   |   X.add(E)
+
+    in which X occurs nowhere but in that one statement becomes `X = [E for T in IT if C]` / `{K: V for ...}` / `{E for ...}`.
+    The iterables are evaluated in the same order, the elements are produced in the same order, and X is complete when the next statement
+    starts — the only difference is that a name bound by the loop is no longer visible afterwards, so the rewrite is skipped when a loop
+    variable is read after the loop.  Returns the number of loops rewritten."""
+    done = 0
+
+    def chain(st, X):
+        """(generators, leaf statement) of a for/if nest that ends in a single statement, else None"""
+        gens = []
+        cur = st
+        while True:
+            if isinstance(cur, ast.For) and not cur.orelse and len(cur.body) == 1:
+                gens.append(ast.comprehension(target=cur.target, iter=cur.iter, ifs=[], is_async=0))
+                cur = cur.body[0]
+            elif isinstance(cur, ast.If) and not cur.orelse and len(cur.body) == 1 and gens:
+                gens[-1].ifs.append(cur.test)
+                cur = cur.body[0]
+            else:
+                break
+        if not gens:
+            return None
+        return gens, cur
+
+    def uses(node, name):
+        return any(isinstance(x, ast.Name) and x.id == name for x in ast.walk(node))
+
+    for holder in ast.walk(root):
+        for f in ("body", "orelse", "finalbody"):
+            lst = getattr(holder, f, None)
+            if not isinstance(lst, list):
+                continue
+            i = 0
+            while i + 1 < len(lst):
+                init, loop = lst[i], lst[i + 1]
+                i += 1
+                if not (isinstance(init, ast.Assign) and len(init.targets) == 1 and isinstance(init.targets[0], ast.Name) and isinstance(loop, ast.For)):
+                    continue
+                X = init.targets[0].id
+                v = init.value
+                kind = None
+                if isinstance(v, ast.List) and not v.elts:
+                    kind = "list"
+                elif isinstance(v, ast.Dict) and not v.keys:
+                    kind = "dict"
+                elif isinstance(v, ast.Call) and isinstance(v.func, ast.Name) and v.func.id == "set" and not v.args:
+                    kind = "set"
+                elif isinstance(v, ast.Call) and not v.args and not v.keywords and (
+                        (isinstance(v.func, ast.Name) and v.func.id in ("dict", "OrderedDict")) or (isinstance(v.func, ast.Attribute) and v.func.attr == "OrderedDict")):
+                    kind = "mapping"  # X = OrderedDict(); for ...: X[k] = v   ->   X = OrderedDict((k, v) for ...)
+                if kind is None:
+                    continue
+                ch = chain(loop, X)
+                if ch is None:
+                    continue
+                gens, leaf = ch
+                if any(uses(g.iter, X) or any(uses(c, X) for c in g.ifs) for g in gens):
+                    continue
+                new = None
+                if kind == "list" and isinstance(leaf, ast.Expr) and isinstance(leaf.value, ast.Call) and isinstance(leaf.value.func, ast.Attribute) \
+                        and leaf.value.func.attr == "append" and isinstance(leaf.value.func.value, ast.Name) and leaf.value.func.value.id == X \
+                        and len(leaf.value.args) == 1 and not uses(leaf.value.args[0], X):
+                    new = ast.ListComp(elt=leaf.value.args[0], generators=gens)
+                elif kind == "set" and isinstance(leaf, ast.Expr) and isinstance(leaf.value, ast.Call) and isinstance(leaf.value.func, ast.Attribute) \
+                        and leaf.value.func.attr == "add" and isinstance(leaf.value.func.value, ast.Name) and leaf.value.func.value.id == X \
+                        and len(leaf.value.args) == 1 and not uses(leaf.value.args[0], X):
+                    new = ast.SetComp(elt=leaf.value.args[0], generators=gens)
+                elif kind == "dict" and isinstance(leaf, ast.Assign) and len(leaf.targets) == 1 and isinstance(leaf.targets[0], ast.Subscript) \
+                        and isinstance(leaf.targets[0].value, ast.Name) and leaf.targets[0].value.id == X and not uses(leaf.targets[0].slice, X) and not uses(leaf.value, X):
+                    new = ast.DictComp(key=leaf.targets[0].slice, value=leaf.value, generators=gens)
+                elif kind == "mapping" and isinstance(leaf, ast.Assign) and len(leaf.targets) == 1 and isinstance(leaf.targets[0], ast.Subscript) \
+                        and isinstance(leaf.targets[0].value, ast.Name) and leaf.targets[0].value.id == X and not uses(leaf.targets[0].slice, X) and not uses(leaf.value, X):
+                    pair = ast.Tuple(elts=[leaf.targets[0].slice, leaf.value], ctx=ast.Load())
+                    new = ast.Call(func=v.func, args=[ast.GeneratorExp(elt=pair, generators=gens)], keywords=[])
+                if new is None:
+                    continue
+                # loop variables must not be read after the loop
+                bound = {x.id for g in gens for x in ast.walk(g.target) if isinstance(x, ast.Name)}
+                later = set()
+                for st in lst[i + 1:]:
+                    later |= _stale_reads(st, bound)
+                if bound & later:
+                    continue
+                init.value = ast.copy_location(new, init.value)
+                del lst[i]
+                i -= 1
+                done += 1
+    if done:
+        ast.fix_missing_locations(root)
+    return done
+
+
+def merge_nested_ifs_inplace(root) -> int:
+    """`if A:\\n    if B:\\n        body` (no else on either, nothing else in the outer body) is `if A and B: body`."""
+    done = 0
+    changed = True
+    while changed:
+        changed = False
+        for n in ast.walk(root):
+            if isinstance(n, ast.If) and not n.orelse and len(n.body) == 1 and isinstance(n.body[0], ast.If) and not n.body[0].orelse:
+                inner = n.body[0]
+                a = n.test.values if isinstance(n.test, ast.BoolOp) and isinstance(n.test.op, ast.And) else [n.test]
+                b = inner.test.values if isinstance(inner.test, ast.BoolOp) and isinstance(inner.test.op, ast.And) else [inner.test]
+                n.test = ast.copy_location(ast.BoolOp(op=ast.And(), values=list(a) + list(b)), n.test)
+                n.body = inner.body
+                changed = True
+                done += 1
+    if done:
+        ast.fix_missing_locations(root)
+    return done
+
+
+def inline_simple_locals(fn):
+    """a copy of fn in which every local that is bound exactly once, by a plain assignment of a side-effect-free expression built from names,
+    attributes, constants and id(...) calls, is replaced by that expression (and the assignment dropped): `parent = self.parent;
+    key = id(parent); if key not in memo` reads `if id(self.parent) not in memo`"""
+    fn = ast_copy(fn)
+
+    def simple(e):
+        for x in ast.walk(e):
+            if isinstance(x, ast.Call):
+                if not (isinstance(x.func, ast.Name) and x.func.id == "id"):
+                    return False
+            elif not isinstance(x, (ast.Name, ast.Attribute, ast.Constant, ast.Load, ast.expr_context)):
+                return False
+        return True
+
+    for _ in range(6):
+        stores, vals = {}, {}
+        params = {a.arg for a in fn.args.args + fn.args.kwonlyargs}
+        for n in ast.walk(fn):
+            if isinstance(n, ast.Name) and isinstance(n.ctx, (ast.Store, ast.Del)):
+                stores[n.id] = stores.get(n.id, 0) + 1
+            elif isinstance(n, ast.Assign) and len(n.targets) == 1 and isinstance(n.targets[0], ast.Name):
+                vals[n.targets[0].id] = n
+        cand = {k: a for k, a in vals.items() if stores.get(k) == 1 and k not in params and simple(a.value)
+                # what the value reads must not be re-bound in the function (other than parameters' attributes)
+                and not any(isinstance(x, ast.Name) and stores.get(x.id, 0) > 0 and x.id not in params and x.id != k and stores.get(x.id, 0) != 1 for x in ast.walk(a.value))}
+        if not cand:
+            break
+        k, a = next(iter(cand.items()))
+
+        class R(ast.NodeTransformer):
+            def visit_Name(self, n):
+                return ast_copy(a.value) if n.id == k and isinstance(n.ctx, ast.Load) else n
+
+        for holder in ast.walk(fn):
+            for f in ("body", "orelse", "finalbody"):
+                lst = getattr(holder, f, None)
+                if isinstance(lst, list) and a in lst:
+                    lst.remove(a)
+                    if not lst:
+                        lst.append(ast.Pass())
+        R().visit(fn)
+    return ast.fix_missing_locations(fn)
